@@ -1,4 +1,5 @@
 mod core;
+mod hist;
 mod pipe;
 mod props;
 mod sweep;
@@ -68,6 +69,10 @@ fn main() {
     let code = match args.id.as_str() {
         "C03" => props::structural::run("C03", &args),
         "C04" => props::structural::run("C04", &args),
+        "C02" => props::c02::run(&args),
+        "C20" => props::features::run(&args),
+        "C08" => props::modhist::run("C08", &args),
+        "C12" => props::modhist::run("C12", &args),
         other => {
             eprintln!("MACHINERY: no check for {}", other);
             2
